@@ -51,6 +51,7 @@ pub fn history_case(ch: &mut Chooser, t: &mut Tally) {
     let restate_head = layout == 0 || layout == 1;
     // bytes before the header: every offset of the file is then relative to the header, in every section
     let prefix = ch.pick_named("bytes-before-header", &["none", "13 bytes"]);
+    let trailer_style = ch.pick_named("optional-trailer-entries", &["restated by every section", "/ID only in the first section"]);
     let mut fb = FileBuilder::new(if prefix == 1 { b"junk\r\nmore\n\n\0" } else { b"" });
     let mut cur_gen: std::collections::BTreeMap<u64, u16> = Default::default();
     let mut in_use: std::collections::BTreeMap<u64, bool> = Default::default();
@@ -155,8 +156,13 @@ pub fn history_case(ch: &mut Chooser, t: &mut Tally) {
             }
         }
         let id = format!("id-of-section-{}", sec);
-        last_id = id.clone().into_bytes();
-        let extra = [("Root", Val::r(root_nr)), ("ID", Val::Array(vec![Val::str(&id), Val::str(&id)]))];
+        // optional trailer entries belong to the section that writes them: an update that leaves /ID out has none
+        let with_id = trailer_style == 0 || sec == 0;
+        last_id = if with_id { id.clone().into_bytes() } else { vec![] };
+        let mut extra = vec![("Root", Val::r(root_nr))];
+        if with_id {
+            extra.push(("ID", Val::Array(vec![Val::str(&id), Val::str(&id)])));
+        }
         let sp = match split {
             0 => Split::Runs,
             1 => Split::PerEntry,
@@ -217,8 +223,8 @@ pub fn history_case(ch: &mut Chooser, t: &mut Tally) {
         if tr.size as u64 != size {
             return Err(("trailer-size".into(), format!("trailer /Size {} expected {}", tr.size, size)));
         }
-        if tr.id.get(0).map(|s| s.as_bytes().to_vec()) != Some(last_id.clone()) {
-            return Err(("trailer-id".into(), format!("trailer /ID {:?}", tr.id)));
+        if tr.id.get(0).map(|s| s.as_bytes().to_vec()).unwrap_or_default() != last_id {
+            return Err(("trailer-id".into(), format!("trailer /ID {:?}, the newest section has {}", tr.id, if last_id.is_empty() { "none".to_string() } else { show_bytes(&last_id) })));
         }
         Ok(())
     });
@@ -401,7 +407,7 @@ pub fn run(tier: Tier, _seed: u64, tally: &mut Tally) -> CheckMeta {
     CheckMeta {
         prop: "C02",
         level: "model_checking",
-        rule: format!("full product of update histories: 1..3 sections x {{table, stream}} x subsection split x per object number ({} numbers) {{absent, direct, compressed, free}} as free dimensions (full product), with option deviations (quick: <= 1 for two object numbers, 0 for three; thorough: <= 2 for two, <= 1 for three) among {{subsection split per entry, own /Root, a new object number, value kind int/name/array, layout: varied object numbers start at 1 instead of 3 / an update that frees objects does not restate object 0, free entries keep the generation of the deleted object or mark it never reusable (next 0, generation 65535), 13 bytes before the header}}; ill-formed histories (compressed object in a table section, re-use of a number freed with generation 65535) are skipped and not counted; a number that was freed before may come back inside an object stream, where its generation is implicitly 0 again. Each file is produced by the independent assembler (generations bumped on free/re-use, free list linked), loaded with the library and every object number below /Size resolved and compared with the reference model (map number -> newest mention); trailer root/size/ID must be the newest section's. Non-trivial = more than one section; distinct by file hash. Long chains: full product of {:?} sections x formats {:?} x xref stream numbering {:?} x touched objects {:?} x {:?}: three objects rewritten (or freed and re-used) again and again, so that sections outnumber objects.", nobj, CHAIN_LEN, CHAIN_FORMAT, CHAIN_XREF_NR, CHAIN_TOUCH, CHAIN_CACHE),
+        rule: format!("full product of update histories: 1..3 sections x {{table, stream}} x subsection split x per object number ({} numbers) {{absent, direct, compressed, free}} as free dimensions (full product), with option deviations (quick: <= 1 for two object numbers, 0 for three; thorough: <= 2 for two, <= 1 for three) among {{subsection split per entry, own /Root, a new object number, value kind int/name/array, layout: varied object numbers start at 1 instead of 3 / an update that frees objects does not restate object 0, free entries keep the generation of the deleted object or mark it never reusable (next 0, generation 65535), 13 bytes before the header, /ID written by the first section only}}; ill-formed histories (compressed object in a table section, re-use of a number freed with generation 65535) are skipped and not counted; a number that was freed before may come back inside an object stream, where its generation is implicitly 0 again. Each file is produced by the independent assembler (generations bumped on free/re-use, free list linked), loaded with the library and every object number below /Size resolved and compared with the reference model (map number -> newest mention); trailer root/size/ID must be the newest section's. Non-trivial = more than one section; distinct by file hash. Long chains: full product of {:?} sections x formats {:?} x xref stream numbering {:?} x touched objects {:?} x {:?}: three objects rewritten (or freed and re-used) again and again, so that sections outnumber objects.", nobj, CHAIN_LEN, CHAIN_FORMAT, CHAIN_XREF_NR, CHAIN_TOUCH, CHAIN_CACHE),
         assumptions: vec!["hybrid-reference files (/XRefStm) are not generated".into(), "object numbers of the file's own xref/object streams are not compared".into()],
         exhaustive: true,
         bounds: json!({"sections": 3, "objects": 3, "option_deviations": if tier.thorough() { 2 } else { 1 }}),
